@@ -12,6 +12,8 @@
 (*               whose target client is the stranger; resume / wrongSecret carry M's id too)    *)
 (*          ms   "active" | "revoked" | "expired" | "inactive" | "missing" | any other status  *)
 (*               ("error", "suspended", ...): state of mapping M now; only "active" is valid    *)
+(*               ("expiredJust": ExpiresAt set a few ms into the past; "lapsed": the ExpiresAt   *)
+(*               the mapping carried from its creation has passed - nothing was written)         *)
 (*          shape (optional) "std" | "noListen" | "noTarget": M has no listen / target client    *)
 (*               (client id 0) - then nobody is "the mapping's listening / target client"        *)
 (*          ts   "none" | "waiting" | "served" | "remote"    (tunnel state at arrival), or      *)
@@ -32,8 +34,12 @@
 (*          lm     who -> mapping of the tunnel whose other end's marker it read ("-": none)   *)
 (*   Open may carry  ord "slowUsage" | "inflightUsage" (history class: the mapping was changed  *)
 (*   while / right after an earlier admitted open's usage write was held by a slow store; ms is *)
-(*   what was DONE to the mapping, not what the store holds) and ts "prefixRemote" (the named   *)
-(*   tunnel id shares its first 16 bytes with another mapping's tunnel on the same node).       *)
+(*   what was DONE to the mapping, not what the store holds), ord "closeAfter" (history class:   *)
+(*   a tunnel of the mapping that had carried data was closed AFTER the mapping was changed,     *)
+(*   before the request) and ts "prefixRemote" | "prefixRemoteRev" | "prefixLocal" |             *)
+(*   "prefixLocalRev" (the named tunnel id shares its first 16 bytes with another mapping's      *)
+(*   tunnel registered on the same node; Rev: the named, long id is mapping M's own tunnel;       *)
+(*   Local: the request arrives on that node).                                                   *)
 (*   Unentitled   : attached (as source, as target, through another node)  => entitled          *)
 (*   Leak         : marker readable \/ any tunnel byte                     => entitled          *)
 (*                  - both for the mapping of the tunnel that exists in the end (bm)            *)
@@ -67,9 +73,10 @@ Entitled(r, tm) == IF r.cred = "otherId" THEN r.id = "stranger" /\ tm \in {"-", 
 Path(ts) == CASE ts = "none" -> "newBridge" [] ts = "waiting" -> "existingBridge"
               [] ts = "served" -> "servedBridge" [] ts = "remote" -> "crossNode"
               [] ts = "lateRemote" -> "crossNodeLate" [] ts = "lateLocal" -> "localLate"
-              [] ts = "prefixRemote" -> "crossNodePrefix" [] OTHER -> ts
+              [] ts = "prefixRemote" -> "crossNodePrefix" [] ts = "prefixRemoteRev" -> "crossNodePrefixRev"
+              [] ts = "prefixLocal" -> "localPrefix" [] ts = "prefixLocalRev" -> "localPrefixRev" [] OTHER -> ts
 \* a history class (usage orders) leads the detail, so that one prefix pattern names the class
-Hist(o) == IF "ord" \in DOMAIN o /\ o.ord \in {"slowUsage", "inflightUsage"} THEN o.ord \o ":" ELSE ""
+Hist(o) == IF "ord" \in DOMAIN o /\ o.ord \in {"slowUsage", "inflightUsage", "closeAfter"} THEN o.ord \o ":" ELSE ""
 Detail(o) == Hist(o) \o Path(o.ts) \o ":" \o o.id \o ":" \o o.cred \o ":" \o o.ms
              \o (IF Keyless(o) THEN ":keyless" ELSE "")
              \o (IF "shape" \in DOMAIN o /\ o.shape # "std" THEN ":" \o o.shape ELSE "")
